@@ -11,6 +11,7 @@ NONTRIVIAL = {'quick': ['compared', 'a-effect', 'b-loss', 'b-reconnect-clean', '
                         'ids-distinct']}
 
 A_KINDS = ('publish', 'ack', 'advance')
+A_KINDS_X = ('publish', 'ack', 'advance', 'reconnect', 'idle-loss')
 B_KINDS = ('publish', 'ack', 'loss', 'reconnect')
 ACKS = ('own0', 'own1', 'foreign-PUBACK', 'foreign-PUBCOMP', 'foreign-SUBACK')
 
@@ -55,13 +56,32 @@ def do_step(eng, side, d, who):
     if kind == 'advance':
         flow.advance(d['dt'])
         return
+    if kind == 'idle-loss':
+        # loss, then a rebuilt protocol whose transport dies before connect() is called, then a persistent reconnect
+        if not c.lost:
+            flow.lose(c=c)
+        c2 = flow.w.build(side.ai)
+        st = flow.w.begin_step('lose')
+        flow.meta[st] = {'kind': 'lose', 'conn': c2}
+        c2.lose_step = st
+        c2.connect_tr = None
+        c2.connack_step = None
+        c2.clean = False
+        flow.w.lose(c2, clean=False)
+        flow.keepalive = getattr(side, 'keepalive', 0)
+        side.c = flow.open(ai=side.ai, clean=False)
+        if not getattr(side, 'default_window', False):
+            side.c.p.setWindowSize(2)
+            side.c.window = 2
+        return
     if kind == 'reconnect':
         if not c.lost:
             flow.lose(c=c)
         flow.keepalive = getattr(side, 'keepalive', 0)
         side.c = flow.open(ai=side.ai, clean=d['clean'])
-        side.c.p.setWindowSize(2)
-        side.c.window = 2
+        if not getattr(side, 'default_window', False):
+            side.c.p.setWindowSize(2)
+            side.c.window = 2
         return
     if c.lost:
         return
@@ -190,7 +210,7 @@ def flatten_cmp(eng, a, b):
 
 def h_two(eng, params):
     jit = [Fraction(1, 2)] * 1024
-    a_script = make_script(eng, A_KINDS, params['ka'], 'A', params.get('afirst'))
+    a_script = make_script(eng, A_KINDS_X if params.get('a_faults') else A_KINDS, params['ka'], 'A', params.get('afirst'))
     b_script = make_script(eng, B_KINDS, params['kb'], 'B', params.get('bfirst'))
     # interleaving: positions of B's steps among A's
     # B's prefix publish runs first; its free steps are merged anywhere among A's steps
@@ -207,17 +227,24 @@ def h_two(eng, params):
         ka, kb = params.get('keepalive', (0, 0))
         A = Side(flow, 0, False)
         A.keepalive = ka
-        flow.keepalive = ka
-        A.c = flow.open(ai=0, clean=True)
-        A.c.p.setWindowSize(2)
-        A.c.window = 2
+        A.default_window = bool(params.get('a_default_window'))
         B = Side(flow, 1, b_persistent)
         B.keepalive = kb
-        if joint:
+
+        def open_b():
             flow.keepalive = kb
             B.c = flow.open(ai=1, clean=not b_persistent)
-            B.c.p.setWindowSize(2)
-            B.c.window = 2
+            B.c.p.setWindowSize(params.get('b_window', 2))
+            B.c.window = params.get('b_window', 2)
+        if joint and params.get('b_first'):
+            open_b()
+        flow.keepalive = ka
+        A.c = flow.open(ai=0, clean=not params.get('a_persistent', False))
+        if not A.default_window:
+            A.c.p.setWindowSize(2)
+            A.c.window = 2
+        if joint and not params.get('b_first'):
+            open_b()
         bi = 0
         for i in range(len(a_script) + 1):
             if joint:
@@ -271,6 +298,11 @@ def shards(tier):
             for b1 in B_KINDS:
                 for b2 in B_KINDS:
                     out.append(('two', {'ka': 3 if T else 2, 'kb': 3 if T else 2, 'b_persistent': bp, 'afirst': (a1,), 'bfirst': (b1, b2)}))
+        # A keeps the library's default window and B, built first, configures a larger one; A itself is lost and rebuilt
+        for a1 in ('publish', 'reconnect', 'idle-loss'):
+            for b1 in ('publish', 'reconnect', 'loss'):
+                out.append(('two', {'ka': 2, 'kb': 1, 'b_persistent': bp, 'afirst': (a1,), 'bfirst': (b1,), 'a_default_window': True, 'b_first': True,
+                                    'b_window': 4, 'a_persistent': True, 'a_faults': True}))
         # both addresses with keepalive running: A publishes and lets time pass while B connects, is lost or reconnects
         for b1 in ('publish', 'loss', 'reconnect'):
             out.append(('two', {'ka': 1, 'kb': 1, 'b_persistent': bp, 'afirst': ('advance',), 'bfirst': (b1,), 'keepalive': (5, 7), 'tail': 12}))
@@ -282,7 +314,7 @@ META = {
             'identifiers either of the own j-th outstanding request or symbolic and foreign to the receiving protocol - possibly an identifier of the other protocol, '
             'inbound identifiers, time), every interleaving position of B among A; the same A script is then run alone on a fresh factory and A\'s observation logs '
             '(identifiers renamed to request ordinals) are compared',
-    'bounds': {'quick': 'A: publish, subscribe + 2 free steps; B: publish + 2 free steps; keepalive off, or 5 s on A and 7 s on B; B includes loss and clean/persistent reconnect; window 2 on both', 'thorough': '3 free steps each'},
+    'bounds': {'quick': 'A: publish, subscribe + 2 free steps; B: publish + 2 free steps; variant: B built first with window 4, A with the default window on a persistent session and itself lost / rebuilt (also lost before connect()); keepalive off, or 5 s on A and 7 s on B; B includes loss and clean/persistent reconnect; window 2 on both', 'thorough': '3 free steps each'},
     'stubs': ['fake transports', 'one twisted task.Clock', 'jitter: the constant 1/2 (so that timers of A are due at the same instants in both runs)'],
     'outside': ['more than two addresses', 'jitter values other than a constant', 'histories longer than kA+kB steps'],
     'assumptions': ['acknowledgement types fit the exchange they address'],
